@@ -50,7 +50,7 @@ fn spec(t: Tier) -> Spec {
     Spec {
         id: "C20",
         level: "exploration",
-        rule: format!("every sequence of <= {l} input lines over {:?} x every list of 1..{a} initial arguments over {:?} x 10 spellings of the replace option (-I R, -IR, -i, -i=R, --replace, --replace=R; R in {{}}, R, %%, aab, {{{{}}}}) is run through the real xargs_main (hook H2 records each invocation): one run per non-empty line, in order, every occurrence of R in every initial argument replaced by the whole line, nothing appended, other arguments unchanged, empty input runs nothing with status 0; plus every ordered subset of {{replace, -n k, -L k}} (k in 1,2): the option given last decides the mode (-I with -n 1 is replace mode); non-trivial = case with at least one non-empty line and a template containing R; lines that are not valid UTF-8 (bytes ff, c3, f0 9f, e9) must be substituted byte for byte; binary slice through the xargs binary and a recorder child", LINES, TEMPL),
+        rule: format!("every sequence of <= {l} input lines over {:?} x every list of 1..{a} initial arguments over {:?} x 10 spellings of the replace option (-I R, -IR, -i, -i=R, --replace, --replace=R; R in {{}}, R, %%, aab, {{{{}}}}) is run through the real xargs_main (hook H2 records each invocation): one run per non-empty line, in order, every occurrence of R in every initial argument replaced by the whole line, nothing appended, other arguments unchanged, empty input runs nothing with status 0; plus every ordered subset of {{replace, -n k, -L k}} (k in 1,2): the option given last decides the mode (-I with -n 1 is replace mode); non-trivial = case with at least one non-empty line and a template containing R; lines that are not valid UTF-8 (bytes ff, c3, f0 9f, e9) must be substituted byte for byte; scale slice: 600 lines (1..40 bytes with inner blanks and é, some empty, plus lines of 300, 1000, 4095..4097, 8191..8193 and 20000 bytes) substituted into one R, 20 arguments R, one argument holding R 1..12 times between literals, and an argument with 70000 + 40000 bytes of literal text around R (lines whose substitution would exceed 100 000 bytes in total are left out: that is C06's subject); binary slice through the xargs binary and a recorder child", LINES, TEMPL),
         bound: json!({"max_lines": l, "max_template_args": a}),
         assumptions: vec!["lines with quotes, backslashes or leading blanks are excluded by the statement".into()],
         shards: 0,
@@ -291,8 +291,82 @@ fn run(ctx: &mut Ctx) {
             }
         }
     }
+    scale_slice(ctx);
     binary_slice(ctx);
     let _ = std::fs::remove_file(&file);
+}
+
+/// 600 lines of cycling lengths (1..40 bytes, inner blanks, é, some empty), with lines of 300, 1000,
+/// 4095, 4096, 4097, 8191, 8192, 8193 and 20000 bytes among them, substituted into: one `{}`; one
+/// argument holding `{}` 1..12 times between literal text; 20 arguments `{}`; an argument with 70000
+/// bytes of literal text before and 40000 after `{}` (shorter lines only); R = `{}` and R = `%%`.
+fn scale_slice(ctx: &mut Ctx) {
+    let file = ctx.sbx.join(".mc-xin");
+    let mut lines: Vec<String> = vec![];
+    for i in 0..600usize {
+        let len = match i {
+            50 => 300,
+            100 => 1000,
+            150 => 4095,
+            151 => 4096,
+            152 => 4097,
+            300 => 8191,
+            301 => 8192,
+            302 => 8193,
+            450 => 20000,
+            _ => (i * 7) % 41,
+        };
+        let mut l = String::new();
+        for j in 0..len {
+            l.push(match (i + j) % 29 {
+                7 if j > 0 && j + 1 < len => ' ',
+                11 => '\u{e9}',
+                _ => (b'a' + (i % 26) as u8) as char,
+            });
+        }
+        lines.push(l);
+    }
+    let short: Vec<String> = lines.iter().filter(|l| l.len() < 100).take(40).cloned().collect();
+    let mut templs: Vec<(Vec<String>, bool)> = vec![(vec!["R".into()], false), (vec!["R".to_string(); 20], false)];
+    for k in 1..=12usize {
+        let mut t = String::from("<");
+        for j in 0..k {
+            t.push_str("R");
+            t.push_str(&format!("{j}|"));
+        }
+        templs.push((vec!["pre".into(), t, "post".into()], false));
+    }
+    templs.push((vec![format!("{}R{}", "x".repeat(70000), "y".repeat(40000))], true));
+    let mut job = 0u64;
+    for (templ, short_only) in &templs {
+        for r in ["{}", "%%"] {
+            job += 1;
+            if job % ctx.nshards != ctx.shard {
+                continue;
+            }
+            // (the substituted command line must stay well below xargs' 128 KiB default budget)
+            let occ: usize = templ.iter().map(|t| t.matches('R').count()).sum::<usize>().max(1);
+            let ls: Vec<&str> = if *short_only { short.iter().map(|s| s.as_str()).collect() } else { lines.iter().filter(|l| l.len() * occ < 100_000).map(|s| s.as_str()).collect() };
+            let tp_owned: Vec<String> = templ.iter().map(|t| t.replace('R', r)).collect();
+            let tp: Vec<&str> = tp_owned.iter().map(|s| s.as_str()).collect();
+            let input = input_of(&ls, true);
+            let got = exec(&file, &["-I".to_string(), r.to_string()], &tp, &input);
+            let want = expected_replace(&ls, &tp, r);
+            ctx.rep.evaluations += 1;
+            ctx.rep.nontrivial += 1;
+            ctx.rep.count("scale_runs", 1);
+            ctx.rep.count("scale_invocations_checked", want.len() as u64);
+            if got.inv != want || got.code != Ok(0) {
+                let first = got.inv.iter().zip(&want).position(|(a, w)| a != w).unwrap_or(got.inv.len().min(want.len()));
+                let brief = |v: &[Vec<Vec<u8>>]| v.get(first).map(|inv| inv.iter().map(|a| { let s = String::from_utf8_lossy(a); if s.len() > 120 { format!("{}...({} bytes)", s.chars().take(120).collect::<String>(), a.len()) } else { s.to_string() } }).collect::<Vec<_>>());
+                ctx.rep.violation(
+                    "C20 replacement wrong on long input (many lines, long lines, many occurrences or long literal text)",
+                    format!("xargs -I {r:?} cmd {:?} over {} lines: {} invocations (expected {}), status {:?}, stderr {:?}; first difference at invocation #{first}:\n expected {:?}\n actual   {:?}", tp.iter().map(|t| if t.len() > 60 { format!("{}...({} bytes)", &t[..60], t.len()) } else { t.to_string() }).collect::<Vec<_>>(), ls.len(), got.inv.len(), want.len(), got.code, String::from_utf8_lossy(&got.err).lines().last().unwrap_or(""), brief(&want), brief(&got.inv)),
+                    json!({"prop":"C20","mode":"scale"}),
+                );
+            }
+        }
+    }
 }
 
 fn binary_slice(ctx: &mut Ctx) {
@@ -343,6 +417,15 @@ fn replay(case: &Value, ctx: &mut Ctx) -> Option<String> {
     if case["binary"] == true {
         println!("binary-level cases are replayed by re-running the check");
         return None;
+    }
+    if case["mode"] == "scale" {
+        let (s0, n0) = (ctx.shard, ctx.nshards);
+        ctx.shard = 0;
+        ctx.nshards = 1;
+        scale_slice(ctx);
+        ctx.shard = s0;
+        ctx.nshards = n0;
+        return ctx.rep.violations.keys().next().cloned();
     }
     let file = ctx.sbx.join(".mc-xin");
     let opts: Vec<String> = case["opts"].as_array()?.iter().map(|v| v.as_str().unwrap_or("").to_string()).collect();
